@@ -89,6 +89,8 @@ def scenarios(ctx):
         w["opts"] = {"ped": True, "tag": rng.choice(["PS", "HP"]), "genetic_haplotyping": rng.random() < 0.8,
                      "only_snvs": rng.random() < 0.15, "lists": {"recomb": rng.random() < 0.6}}
         if rng.random() < 0.25:
+            w["opts"]["use_ped_samples"] = True      # --use-ped-samples: exactly the individuals of complete PED relationships
+        if rng.random() < 0.25:
             PW.add_decoys(rng, w)
         if rng.random() < 0.3:
             w["stale_phase"] = rng.choice(["PS", "HP"])    # the input VCF already carries unrelated phase statements
